@@ -406,6 +406,8 @@ def run(ctx):
     r4_history_writes(ctx, prog)
     r5_gates(ctx, prog)
     r6_boolean(ctx, prog)
+    from rules import c02
+    c02.r4_oneway(ctx, prog, rule_id='C08.R7')
 
 
 MUTANTS = [
